@@ -24,7 +24,7 @@ THEOREMS = ["GmqttVerif.Alias.outbound_alias_sound",
             "GmqttVerif.Broker.inbound_quota_never_refused",
             "GmqttVerif.Broker.inbound_quota_exceeded_kicked",
             "GmqttVerif.Broker.inbound_size",
-            "GmqttVerif.Broker.negotiate_ok",
+            "GmqttVerif.Broker.negotiate_ok", "GmqttVerif.Broker.validCfg_iff_validB",
             "GmqttVerif.Broker.receive_maximum_zero_starves"]
 EXTRA_MODULES = ['GmqttVerif.Properties.C13Broker']
 COMPS = ["aliasfifo", "aliasin", "broker"]
@@ -285,7 +285,7 @@ def streams(tier):
             # `drive_aliasin` uses wall-clock waits; under heavy machine load they can expire, so the quick tier keeps it small
             # (the same clauses are covered with exact quiescence by the stream broker-limits)
             (core.Stream("aliasin", "aliasin", gen_in, pred_in, nontrivial_in, keep_prefix=1, timeout=900), 300 if q else 100000),
-            c13wire.stream(tier), _backlog(tier)]
+            c13wire.stream(tier), _backlog(tier), c13wire.stream_cfg(tier)]
 
 def _backlog(tier):
     # Maximum Packet Size across a session resume, oversize messages in a backlog (shared with C01)
